@@ -221,6 +221,8 @@ def run(ctx):
     rule_r1(facts, ctx, sites)
     rule_r2(facts, ctx, sites)
     rule_r3(facts, ctx, sites)
+    from .. import controls
+    controls.expect(ctx, "C06.R1", lambda f, c: rule_r1(f, c, st_sites(f)), "BadRunner", "Again arm leaves done == true")
     ctx.floor("C06.R1", 2, "Again and Pending arms of Graph::run")
     ctx.floor("C06.R2", 5, "skip test, EOF arm, closed()/eof() tests of Graph::run")
     ctx.floor("C06.R3", 40, "premise + (work body, settled verdict) pairs")
